@@ -908,6 +908,7 @@ class EventBus:
         if not self._is_running:
             return None
 
+        get_next_queued_event: asyncio.Task['BaseEvent[Any]'] | None = None
         try:
             # Create a task for queue.get() so we can cancel it cleanly
             get_next_queued_event = asyncio.create_task(self.event_queue.get())
@@ -931,8 +932,14 @@ class EventBus:
                     self._on_idle.set()
                 return None
 
-        except (asyncio.CancelledError, RuntimeError, QueueShutDown):
-            # Clean cancellation during shutdown or queue was shut down
+        except asyncio.CancelledError:
+            # The run loop task itself is being cancelled (e.g. by asyncio.run() teardown): do not swallow it,
+            # otherwise the run loop keeps polling forever and the event loop can never be closed
+            if get_next_queued_event is not None:
+                get_next_queued_event.cancel()
+            raise
+        except (RuntimeError, QueueShutDown):
+            # Queue was shut down or the event loop is closing
             return None
 
     async def step(
